@@ -26,6 +26,8 @@ PROOF_MODULES = ["PyTealV.Proofs.C02Spill", "PyTealV.Proofs.C02RecPoints", "PyTe
                  "PyTealV.Proofs.C02GenSem", "PyTealV.Proofs.C02GenSrc", "PyTealV.Proofs.C02GenCall",
                  "PyTealV.Proofs.C02GenSpill", "PyTealV.Proofs.C02GenProg", "PyTealV.Proofs.C02GenPres", "PyTealV.Proofs.C02GenValid",
                  "PyTealV.Proofs.C02GenPresV",
+                 # WideRatio inside the fragment: source-side closed form, machine-level op lemmas, the simulation case
+                 "PyTealV.Proofs.C02GenWideSrc", "PyTealV.Proofs.C02GenWideOps", "PyTealV.Proofs.C02GenWide",
                  "PyTealV.Proofs.C02Gen",
                  "PyTealV.Proofs.C02Compile",
                  # renaming invariance of `Src.runProg` and the composed theorems for the ORIGINAL program
